@@ -626,7 +626,12 @@ def run_real(desc):
         info['late'] = log[n:]
         info['state_after'] = vis(f.state)
 
-    harness.run_case(scenario)
+    try:
+        harness.run_case(scenario)
+    except harness.vloop.Livelock as err:
+        # hundreds of thousands of loop iterations without the virtual time advancing: the FSM
+        # keeps re-arming a zero-length timer (the reference model ends every chain by an error)
+        info['livelock'] = str(err)
     return results, log, info
 
 
